@@ -4,6 +4,7 @@
 // available, and from the module that actually defines them").  Pure lemmas; every hypothesis about the world is a
 // `requires` (text_pv_laws = MP7 + MP8 of prelude/modres_path.rs; what `split` yields for the text at hand).
 // FINDING / FACT lemmas state behaviour that strains the property; each names a concrete layout for replay.
+// (F-14f, module file shadowing the package, was a FINDING here until /repo 6de68a0; now lemma_C14_package_wins_over_module_file.)
 
 pub proof fn lemma_dots_end_ge(m: Seq<char>, k: int)
     requires 0 <= k,
@@ -27,8 +28,8 @@ pub open spec fn mod_file(base: PV, parts: Seq<Seq<char>>) -> PV { base + parts.
 pub open spec fn pkg_init(base: PV, parts: Seq<Seq<char>>) -> PV { base + parts + seq![init_name()] }
 pub open spec fn closed_form_from(base: PV, parts: Seq<Seq<char>>, i: int, dom: Set<PV>) -> Option<PV> {
     if !dirs_ok(base, parts, i) { None }
-    else if hit(mod_file(base, parts), dom) { Some(mod_file(base, parts)) }
     else if hit(pkg_init(base, parts), dom) { Some(pkg_init(base, parts)) }
+    else if hit(mod_file(base, parts), dom) { Some(mod_file(base, parts)) }
     else { None }
 }
 pub open spec fn closed_form(base: PV, parts: Seq<Seq<char>>, dom: Set<PV>) -> Option<PV> { closed_form_from(base, parts, 0, dom) }
@@ -76,7 +77,7 @@ pub proof fn lemma_find_parts_closed(parts: Seq<Seq<char>>, i: int, base: PV, do
 //@tags C14
 /// CLOSED FORM: for a dotted path whose components are ordinary names, below directory `base`:
 /// every component but the last must be a directory (and only that: no `__init__.py` is asked for); then
-/// `<base>/a/b.py` if it is there, else `<base>/a/b/__init__.py` if it is there, else nothing
+/// `<base>/a/b/__init__.py` if it is there, else `<base>/a/b.py` if it is there, else nothing
 pub proof fn lemma_C14_closed_form(m: Seq<char>, base: PV, dom: Set<PV>)
     requires text_pv_laws(), all_simple(split_v(m, '.')), split_v(m, '.').len() >= 1,
     ensures op_find(m, base, dom) == closed_form(base, split_v(m, '.'), dom),
@@ -98,30 +99,40 @@ pub proof fn lemma_C14_found_file_is_below_base(m: Seq<char>, base: PV, dom: Set
     assert(pkg_init(base, parts).subrange(0, base.len() as int) =~= base);
 }
 //@tags C14
-/// FINDING (package vs module precedence): when both `<dir>/x.py` and `<dir>/x/__init__.py` are there, the MODULE
-/// FILE is returned.  Python's import system prefers the package (a directory with `__init__.py` is tried before
-/// `x.py`), so fixtures are reported "from" a file Python never imports.
-/// replay: tests/conftest.py `from .helpers import *`; tests/helpers.py defines fixture `from_module`;
-/// tests/helpers/__init__.py defines fixture `from_package` -> pytest sees `from_package`, the server offers `from_module`.
-pub proof fn lemma_C14_FINDING_module_file_shadows_package(m: Seq<char>, base: PV, dom: Set<PV>)
+/// package vs module precedence (F-14f, repaired in /repo 6de68a0): when both `<dir>/x/__init__.py` and `<dir>/x.py`
+/// are there, the PACKAGE is returned — the file Python's import system imports (a directory with `__init__.py` is
+/// tried before `x.py`), so the fixtures come "from the module that actually defines them".
+/// replay (replay/scenarios/F-14f.json): tests/conftest.py `from .helpers import *`; tests/helpers.py defines
+/// `from_module`; tests/helpers/__init__.py defines `from_package` -> the closure is ['from_package'].
+pub proof fn lemma_C14_package_wins_over_module_file(m: Seq<char>, base: PV, dom: Set<PV>)
     requires text_pv_laws(), all_simple(split_v(m, '.')), split_v(m, '.').len() >= 1,
         dirs_ok(base, split_v(m, '.'), 0),
         hit(mod_file(base, split_v(m, '.')), dom), hit(pkg_init(base, split_v(m, '.')), dom),
-    ensures op_find(m, base, dom) == Some(mod_file(base, split_v(m, '.'))),
+    ensures op_find(m, base, dom) == Some(pkg_init(base, split_v(m, '.'))),
+{
+    lemma_C14_closed_form(m, base, dom);
+}
+//@tags C14
+/// ... and the module file is the result exactly when the package is NOT there
+pub proof fn lemma_C14_module_file_only_without_package(m: Seq<char>, base: PV, dom: Set<PV>)
+    requires text_pv_laws(), all_simple(split_v(m, '.')), split_v(m, '.').len() >= 1,
+        op_find(m, base, dom) == Some(mod_file(base, split_v(m, '.'))), mod_file(base, split_v(m, '.')) != pkg_init(base, split_v(m, '.')),
+    ensures !hit(pkg_init(base, split_v(m, '.')), dom), hit(mod_file(base, split_v(m, '.')), dom),
 {
     lemma_C14_closed_form(m, base, dom);
 }
 //@tags C14
 /// namespace packages (PEP 420), part 1: the INTERMEDIATE components of `a.b` only have to be directories —
-/// `<base>/a/b.py` is found whether or not `<base>/a/__init__.py` exists
+/// `<base>/a/b.py` is found (no package `<base>/a/b/__init__.py` being there) whether or not `<base>/a/__init__.py` exists
 pub proof fn lemma_C14_intermediate_directories_need_no_init(m: Seq<char>, base: PV, dom: Set<PV>, a: Seq<char>, b: Seq<char>)
     requires text_pv_laws(), split_v(m, '.') == seq![a, b], simple_name(a), simple_name(b),
-        fs_is_dir(base + seq![a]), hit(base + seq![a, b + py_suffix()], dom),
+        fs_is_dir(base + seq![a]), hit(base + seq![a, b + py_suffix()], dom), !hit(base + seq![a, b, init_name()], dom),
     ensures op_find(m, base, dom) == Some(base + seq![a, b + py_suffix()]),
 {
     let parts = seq![a, b];
     lemma_C14_closed_form(m, base, dom);
     assert(mod_file(base, parts) =~= base + seq![a, b + py_suffix()]) by { assert(parts.drop_last() =~= seq![a]); }
+    assert(pkg_init(base, parts) =~= base + seq![a, b, init_name()]);
     assert(dirs_ok(base, parts, 0)) by {
         assert forall|j: int| 0 <= j < parts.len() - 1 implies fs_is_dir(#[trigger] dir_at(base, parts, j)) by {
             assert(parts.take(1) =~= seq![a]);
@@ -205,16 +216,16 @@ pub proof fn lemma_C14_from_dot_import_resolves_next_to_importing_file(from: PV,
     assert(text_pv(init_name()) == seq![init_name()] && !pv_is_abs(seq![init_name()]));
 }
 //@tags C14
-/// `from .x import *` (module text ".x", x an ordinary name without dots): `<dir of importing file>/x.py`, else
-/// `<dir of importing file>/x/__init__.py`, else nothing
+/// `from .x import *` (module text ".x", x an ordinary name without dots): `<dir of importing file>/x/__init__.py`, else
+/// `<dir of importing file>/x.py`, else nothing
 pub proof fn lemma_C14_from_dot_x_resolves_next_to_importing_file(x: Seq<char>, from: PV, dom: Set<PV>, sps: Seq<PV>, ers: Seq<PV>)
     requires text_pv_laws(), pv_has_parent(from), from.len() > 0,
         simple_name(x), x[0] != '.', split_v(x, '.') == seq![x],
     ensures ({
         let d = from.drop_last();
         op_resolve(seq!['.'] + x, from, dom, sps, ers)
-            == (if hit(d + seq![x + py_suffix()], dom) { Some(d + seq![x + py_suffix()]) }
-                else if hit(d + seq![x, init_name()], dom) { Some(d + seq![x, init_name()]) } else { None })
+            == (if hit(d + seq![x, init_name()], dom) { Some(d + seq![x, init_name()]) }
+                else if hit(d + seq![x + py_suffix()], dom) { Some(d + seq![x + py_suffix()]) } else { None })
     }),
 {
     let m = seq!['.'] + x;
@@ -339,13 +350,13 @@ pub proof fn lemma_C14_local_module_shadows_installed_one(m: Seq<char>, d: PV, d
 // ---- odd dotted strings (C11: none of them panics — that is part of L1; here: what they resolve to) --------------
 //@tags C14 C11
 /// FACT (empty LAST segment: module text "" — e.g. `pytest_plugins = ""` — or a trailing dot "pkg."): the candidates
-/// are `<cur>/.py` and `<cur>/__init__.py`: an EMPTY plugin string resolves to the `__init__.py` of the importing
+/// are `<cur>/__init__.py` and then `<cur>/.py`: an EMPTY plugin string resolves to the `__init__.py` of the importing
 /// file's own directory or of the nearest ancestor that has one
 pub proof fn lemma_C14_FACT_empty_last_segment_resolves_to_init(parts: Seq<Seq<char>>, cur: PV, dom: Set<PV>)
     requires text_pv_laws(), parts.len() == 1, parts[0].len() == 0,
     ensures op_find_parts(parts, 0, cur, dom)
-        == (if hit(cur + seq![py_suffix()], dom) { Some(cur + seq![py_suffix()]) }
-            else if hit(cur + seq![init_name()], dom) { Some(cur + seq![init_name()]) } else { None }),
+        == (if hit(cur + seq![init_name()], dom) { Some(cur + seq![init_name()]) }
+            else if hit(cur + seq![py_suffix()], dom) { Some(cur + seq![py_suffix()]) } else { None }),
 {
     let e = parts[0];
     assert(e =~= Seq::<char>::empty());
@@ -380,16 +391,17 @@ pub proof fn lemma_C14_FACT_empty_inner_segment_is_skipped(a: Seq<char>, b: Seq<
 /// file, relative or not to anything in the workspace.  (pytest itself fails to import such a name.)
 pub proof fn lemma_C14_FACT_absolute_text_escapes_every_base(parts: Seq<Seq<char>>, base1: PV, base2: PV, dom: Set<PV>)
     requires parts.len() == 1, pv_is_abs(text_pv(parts[0] + py_suffix())), fs_exists(text_pv(parts[0] + py_suffix())),
+        !hit(cand_init(base1, parts[0]), dom), !hit(cand_init(base2, parts[0]), dom),   // no package of that name
     ensures op_find_parts(parts, 0, base1, dom) == Some(text_pv(parts[0] + py_suffix())),
         op_find_parts(parts, 0, base1, dom) == op_find_parts(parts, 0, base2, dom),
 {}
 
 // ---- vacuity guards: each of these must FAIL --------------------------------------------------------------------
-/// "the package wins over the module file" (what Python does)
-proof fn canary_package_preferred_to_module_file(m: Seq<char>, base: PV, dom: Set<PV>)
+/// "the module file wins over the package" (the behaviour before /repo 6de68a0, F-14f)
+proof fn canary_module_file_preferred_to_package(m: Seq<char>, base: PV, dom: Set<PV>)
     requires text_pv_laws(), all_simple(split_v(m, '.')), split_v(m, '.').len() >= 1, dirs_ok(base, split_v(m, '.'), 0),
         hit(mod_file(base, split_v(m, '.')), dom), hit(pkg_init(base, split_v(m, '.')), dom),
-    ensures op_find(m, base, dom) == Some(pkg_init(base, split_v(m, '.'))),
+    ensures op_find(m, base, dom) == Some(mod_file(base, split_v(m, '.'))),
 {
     lemma_C14_closed_form(m, base, dom);
 }
